@@ -1302,6 +1302,20 @@ fn run_installation(ctx: &Ctx, idx: usize, rng: &mut Rng) -> Result<(), String> 
             h.stats.add(&format!("installation.write_file.compress={compress}"), 1);
             h.stats.add(&format!("payload_class.{class}"), 1);
             h.stats.max("max_payload_len", payload.len() as u64);
+            // probe - store - read: a launcher asks for an object before it downloads and stores it; a miss must not
+            // outlive the write that makes the object exist
+            let probed = rng.chance(1, 3);
+            if probed {
+                let pk = derive_ekey(&payload);
+                if !known9.contains(&k9(&pk)) {
+                    h.log(format!("probe-before-write key={}", hex::encode(&pk[..4])));
+                    h.stats.add("installation.ops.probe_before_write", 1);
+                    if rt.block_on(inst.read_file_by_encoding_key(&EncodingKey::from_bytes(pk))).is_ok() {
+                        h.violation("C04|Installation::read_file_by_encoding_key|ok-for-never-written-key".to_string(), "read returned data for a key that was never written", json!({"ekey": hex::encode(pk)}));
+                    }
+                    let _ = rt.block_on(inst.has_encoding_key(&EncodingKey::from_bytes(pk)));
+                }
+            }
             match rt.block_on(inst.write_file(payload.clone(), compress)) {
                 Ok(ckey) => {
                     h.stats.add("bytes_written", payload.len() as u64);
@@ -1333,6 +1347,14 @@ fn run_installation(ctx: &Ctx, idx: usize, rng: &mut Rng) -> Result<(), String> 
                     m.order.push(ekey);
                     m.live.insert(ekey, Obj { payload, class, epoch: h.epoch, write_no: m.writes });
                     m.writes += 1;
+                    if probed {
+                        // the read right after the store, on the instance that saw the miss
+                        let o = &m.live[&ekey];
+                        h.log(format!("read-after-probe-and-write key={}", hex::encode(&ekey[..4])));
+                        h.stats.add("installation.ops.read_after_probe_and_write", 1);
+                        let res = rt.block_on(inst.read_file_by_encoding_key(&EncodingKey::from_bytes(ekey)));
+                        check_read_result(&mut h, "Installation::read_file_by_encoding_key", &ekey, o, res, 0);
+                    }
                 }
                 Err(e) => h.stats.add(&format!("installation.write_file.err.{}", err_label(&e)), 1),
             }
